@@ -27,7 +27,7 @@ from pathlib import Path
 VERIF = Path(__file__).resolve().parent.parent
 REPO = Path(os.environ.get("VERIF_REPO", "/repo")).resolve()
 COQ_SRC = VERIF / "coq" / "theories"
-NCPU = min(16, os.cpu_count() or 4)
+NCPU = int(os.environ.get("VERIF_NCPU") or min(16, os.cpu_count() or 4))
 LOGICAL = "GV"
 
 COQ_TIMEOUT = int(os.environ.get("VERIF_COQ_TIMEOUT", "900"))
